@@ -1003,6 +1003,12 @@ namespace
       case DW_OP_GNU_convert:		// XXX CU-relative offset to DIE
       case DW_OP_GNU_reinterpret:	// XXX CU-relative offset to DIE
       case DW_OP_GNU_parameter_ref:	// XXX CU-relative offset to DIE
+      case DW_OP_convert:		// XXX CU-relative offset to DIE
+      case DW_OP_reinterpret:		// XXX CU-relative offset to DIE
+      case DW_OP_addrx:			// XXX index into .debug_addr
+      case DW_OP_constx:		// XXX index into .debug_addr
+      case DW_OP_GNU_addr_index:	// XXX index into .debug_addr
+      case DW_OP_GNU_const_index:	// XXX index into .debug_addr
 	return single_constant ({op->number, &dec_constant_dom});
 
       case DW_OP_const1s:
@@ -1019,6 +1025,9 @@ namespace
       case DW_OP_bit_piece:
       case DW_OP_GNU_regval_type:
       case DW_OP_GNU_deref_type:
+      case DW_OP_regval_type:
+      case DW_OP_deref_type:
+      case DW_OP_xderef_type:
 	return two_constants ({op->number, &dec_constant_dom},
 			      {op->number2, &dec_constant_dom});
 
@@ -1027,6 +1036,7 @@ namespace
 			      signed_cst (op->number2, &dec_constant_dom));
 
       case DW_OP_GNU_implicit_pointer:
+      case DW_OP_implicit_pointer:
 	{
 	  Dwarf_Die die;
 	  if (dwarf_getlocation_die
@@ -1054,6 +1064,7 @@ namespace
 	}
 
       case DW_OP_GNU_entry_value:
+      case DW_OP_entry_value:
 	{
 	  Dwarf_Attribute attr;
 	  if (dwarf_getlocation_attr
@@ -1065,6 +1076,7 @@ namespace
 	}
 
       case DW_OP_GNU_const_type:
+      case DW_OP_const_type:
 	{
 	  Dwarf_Attribute *attr = const_cast <Dwarf_Attribute *> (&at);
 	  Dwarf_Die die;
